@@ -132,7 +132,12 @@ def close(a, b, tol=1e-9):
 def kwargs_of(inp):
     kw = {}
     for k, v in (inp.get("kw") or {}).items():
-        kw[k] = None if v is None else (float(Fr(v)) if isinstance(v, str) else v)
+        if isinstance(v, str):
+            try:
+                v = float(Fr(v))
+            except ValueError:
+                pass            # a keyword whose value is a name (kind="cubic")
+        kw[k] = v
     return kw
 
 
